@@ -1,11 +1,63 @@
-import Unsized.MachineLemmas
-/-! # C02 — property theorems (under construction; see notes/C01_machine.md) -/
-namespace Unsized.C02
-open Common Unsized Unsized.Machine
+import Unsized.Props.C01
+/-!
+# C02 — Stored bytes are always the canonical serialization, with exact length
 
-/-- A refused or over-limit growth leaves the bytes untouched. -/
-theorem addBytes_err_bytes (m : Mem) (start amount : Nat) (e : Err) (m' : Mem)
-    (h : m.addBytes start amount = (m', .error e)) : m'.bytes = m.bytes ∧ m'.orig = m.orig :=
-  Unsized.Machine.addBytes_err_bytes m start amount e m' h
+Same model as C01 (`Unsized/Machine*.lean`, executed by `c02_model`). `absVal` of a machine state is the
+owned-model value carried by the refinement invariant `Inv`; `encode` is the model of
+`FromOwned::from_owned`, `size` of `FromOwned::byte_size` (`Unsized/Codec.lean`, tied to the real
+serializer by C05).
+-/
+namespace Unsized.C02
+open Common Unsized Unsized.Text Unsized.Machine
+
+/-
+FULL STATEMENT (`bytes_canonical`): after EVERY successful step of any history, `data[0..len) =
+encode s absVal` and `len = size s absVal`. Proved for all `Supported` (node kind, op) pairs, see
+`Unsized.C01.step_refines_partial` for what is missing.
+-/
+
+/-- **After every successful step** the buffer is byte-for-byte the serialization of the current
+logical value and the reported length is its serialized size. -/
+theorem bytes_canonical_partial (s : Shape) (vs : VState) (ms : State) (inv : Inv s vs ms) (cmd : Cmd)
+    (hcmd : CmdOk s vs ms.mem.orig cmd) :
+    (step s ms cmd).1.mem.bytes = encode s (stepV s vs cmd).1.val
+    ∧ (step s ms cmd).1.mem.bytes.length = size s (stepV s vs cmd).1.val := by
+  obtain ⟨_, h2, h3, _⟩ := Unsized.C01.step_refines_partial s vs ms inv cmd hcmd
+  exact ⟨h2, h3⟩
+
+/-- … and after any finite history. -/
+theorem bytes_canonical_history_partial (s : Shape) (v : Val) (hok : s.ok = true) (hwf : WF s v = true)
+    (hsmall : (encode s v).length + maxIncrease < Shape.u32Lim) (cmds : List Cmd)
+    (hh : HistOk s (encode s v).length ⟨v, [[]]⟩ cmds) :
+    (runM s (Unsized.C01.load s v) cmds).1.mem.bytes = encode s (runS s ⟨v, [[]]⟩ cmds).1.val
+    ∧ (runM s (Unsized.C01.load s v) cmds).1.mem.bytes.length = size s (runS s ⟨v, [[]]⟩ cmds).1.val := by
+  obtain ⟨_, h2⟩ := run_inv s cmds ⟨v, [[]]⟩ (Unsized.C01.load s v) (Unsized.C01.load_inv s v hok hwf hsmall)
+    (by simpa [Unsized.C01.load, State.init] using hh)
+  exact ⟨h2.bytes, by rw [h2.bytes, encode_size_all _ _ h2.good.valid]⟩
+
+/-- **No stale metadata**: every redundant field of a list of unsized elements is a function of the
+logical value — `unsized_size` is the sum of the element sizes, both copies of `len` are the element
+count, and the offset table holds the running sums of the element sizes. (So the trailing `len` copy,
+which the framework's own reader never consults, cannot disagree in a canonical buffer.) -/
+theorem no_stale_metadata (e : Shape) (vs : List Val) :
+    encode (.ulist e) (.useq vs)
+      = leN 4 ((vs.map fun v => (encode e v).length).sum) ++ leN 4 vs.length
+        ++ ((offsets (vs.map fun v => (encode e v).length) 0).map (leN 4)).flatten
+        ++ leN 4 vs.length ++ (vs.map (encode e)).flatten := by
+  simp only [encode, List.map_map]; rfl
+
+/-- The same for `UnsizedMap` (entries `le32 offset ++ key`). -/
+theorem no_stale_metadata_umap (kw : Nat) (e : Shape) (es : List (List Nat × Val)) :
+    encode (.umap kw e) (.umap es)
+      = leN 4 ((es.map fun kv => (encode e kv.2).length).sum) ++ leN 4 es.length
+        ++ (List.zipWith (fun o (kv : List Nat × Val) => leN 4 o ++ kv.1)
+              (offsets (es.map fun kv => (encode e kv.2).length) 0) es).flatten
+        ++ leN 4 es.length ++ (es.map fun kv => encode e kv.2).flatten := by
+  simp only [encode, List.map_map]; rfl
+
+/-- Non-vacuity: the C01 example history ends in a canonical buffer of the announced size. -/
+example : (runM Unsized.C01.exS (Unsized.C01.load Unsized.C01.exS Unsized.C01.exV) Unsized.C01.exH).1.mem.bytes.length
+    = size Unsized.C01.exS (runS Unsized.C01.exS ⟨Unsized.C01.exV, [[]]⟩ Unsized.C01.exH).1.val := by
+  decide +kernel
 
 end Unsized.C02
